@@ -238,17 +238,26 @@ def book_oracle_all(rng, n):
         z, X, y, ops, mode, eps = gen_zoo_history(rng, name)
         est = z["est"]
         presented = 0
+        supplied = []
         count += 1
         for i, (op, ix) in enumerate(ops):
             Xi = take(X, ix)
-            yi = None if y is None else np.asarray(y)[ix]
+            yi = None if y is None else np.array(np.asarray(y)[ix])
             try:
                 call(est, op, Xi, yi, mode, eps)
             except Exception as e:
                 break          # totality is C04's / C06's business
             presented = len(ix) if op == "fit" else presented + len(ix)
             bad = None
-            for (lab, labels, nW, wsc, sc, chk, minus1, ncl) in views(name, est):
+            if name == "SimpleARTMAP" and yi is not None:
+                # the stored targets: one per sample presented since the last fit, and they are the model's own record
+                # (the caller re-uses its label buffer after the call)
+                given = [int(v) for v in np.asarray(y)[ix]]
+                supplied = given if op == "fit" else supplied + given
+                yi[:] = yi.max() + 7
+                if [int(v) for v in est.labels_] != supplied:
+                    bad = ("SimpleARTMAP", f"labels_ (the stored targets) is {[int(v) for v in est.labels_]} after {presented} samples with targets {supplied}")
+            for (lab, labels, nW, wsc, sc, chk, minus1, ncl) in ([] if bad else views(name, est)):
                 why = c05.book_ok(np.asarray(labels), nW, wsc if wsc is not None else [], sc if sc is not None else presented,
                                   presented, check_counters=chk and wsc is not None, allow_minus1=minus1)
                 if why is None and chk and wsc is not None and sc is None and sum(wsc) != presented:
